@@ -4,9 +4,13 @@
 
   `marshal`    VLA.Marshal: validation (analyzeVLAForMarshaling / preprocessForMashaling),
                commonSLBMValues, the `requiredLen` computation, the encoder.  The encoder writes
-               its sections one after the other into `make([]byte, requiredLen)`; the model builds
+               its sections one after the other into `make([]byte, requiredLen)`; this model builds
                the sections as lists and `fit`s them into the buffer: a shorter body leaves surplus
-               zero bytes, a longer one is an index-out-of-range panic.
+               zero bytes, a longer one overruns it.
+  `marshalGo`  the same function statement by statement: every index write, `|=`, `copy` and
+               `PutUint16` on the zeroed buffer, panicking exactly where Go's bounds checks would.
+               This is the model the driver runs against the real code; `marshalGo_eq_marshal`
+               (Rtp/Proofs/VLABuf.lean) proves it equal to `marshal` on every input.
   `unmarshal`  VLA.Unmarshal with the payload and an offset, exactly as the Go code walks it.
                Every `payload[i]` is guarded by an explicit "index in range, else panic" test in
                the model, every `checkRemainingLen` is the Go comparison; that the latter make the
